@@ -103,7 +103,12 @@ BinDraws(s) == IF s > NS THEN << >>
                ELSE (IF ModeOf(s) = "binomial" THEN Rep(<<"lo", P>>, kbin[s]) \o Rep(<<"hi", P>>, n[s] - kbin[s]) ELSE << >>) \o BinDraws(s + 1)
 Draws == (IF DrawsVolume THEN << <<"u", up>> >> ELSE << >>) \o PerfDraws(1) \o BinDraws(1)
 
-Emit == Done => PrintT(ToJson([cls |-> cls, vmode |-> vmode, modes |-> modes, noise |-> noise, V |-> V, n |-> n, p |-> P, q |-> Q,
+\* history: a splitter object may have been configured before; its configuration is the LAST one given, nothing of an
+\* earlier configuration survives.  Every behaviour is also replayed on a splitter that was first configured with Prev
+\* (every species in another mode) and then re-configured with the modes of the behaviour.
+Rot(md) == CASE md = "binomial" -> "perfect" [] md = "perfect" -> "duplicate" [] md = "duplicate" -> "binomial"
+Prev == [s \in Sp |-> Rot(modes[s])]
+Emit == Done => PrintT(ToJson([cls |-> cls, vmode |-> vmode, modes |-> modes, prev |-> Prev, noise |-> noise, V |-> V, n |-> n, p |-> P, q |-> Q,
                                 d1 |-> [s \in Sp |-> D1(s)], d2 |-> [s \in Sp |-> D2(s)], v1 |-> RMul(P, V), v2 |-> RMul(Q, V),
                                 draws |-> Draws]))
 
